@@ -844,12 +844,13 @@ pub fn do_special(w: &mut World, kind: &str, a: u64, b: u64, c: u64) -> VResult<
         "apply_detached" => do_apply_detached(w, a as usize, c as usize, b),
         "bad_join" => do_bad_join(w, a, b as usize, c as usize),
         "branch" => crate::c17::do_branch(w, a as usize, b, c),
-        "forge" if b >= 8 => crate::c10::do_forge_update(w, a as usize, 0, c as usize, None),
+        "forge" if b >= 9 => crate::c10::do_forge_update(w, a as usize, 0, c as usize, None),
         "update_clash" => crate::c10::do_update_clash(w, a as usize, 0, b),
         "forge" => crate::c10::do_forge(w, a as usize, 0, b, c as usize),
         "sflip" => crate::codec::do_stored_flip(w, a as usize, c as usize, b),
         "observe" => crate::observer::do_observe(w, a as usize, b),
         "obs_feed" => crate::observer::do_obs_feed(w, a as usize, b),
+        "x509_case" => crate::x509sim::do_x509_case(w, a, b, c),
         "obs_snapshot" => crate::observer::do_obs_snapshot(w, a as usize),
         "obs_stale_ref" => crate::observer::do_obs_stale_ref(w, a as usize, b),
         "obs_propose" => crate::observer::do_obs_propose(w, a as usize, b, c as usize),
@@ -991,6 +992,7 @@ pub fn do_byz_commit(w: &mut World, p: usize, g: usize, code: u8, param: u8) -> 
         clone.commit_builder().commit_time(now).build()
     });
     let fired = mls_rs::group::verif_hooks::modifiers::clear();
+    let touched = mls_rs::group::verif_hooks::modifiers::touched_node();
     let res = res?;
     w.stats.op("byz_commit");
     let out = match res {
@@ -1009,8 +1011,19 @@ pub fn do_byz_commit(w: &mut World, p: usize, g: usize, code: u8, param: u8) -> 
     let bytes = out.commit_message.to_bytes().unwrap_or_default();
     // 6/7/8 (ciphertext list length, damaged ciphertext) and 31 (path secret sealed to a wrong copath key)
     // are only detectable by the receivers that decrypt at that node
-    let must_reject = !matches!(code, 6 | 7 | 8 | 31);
+    let must_reject = !matches!(code, 6 | 7 | 8 | 31 | 32);
+    // 32 (a key on the committer's path node `touched` that does not come from its path secrets): every receiver
+    // below that node derives the node's secret and must notice; receivers outside its subtree cannot
+    let members_now = w.groups[g].members.get(&epoch).cloned().unwrap_or_default();
+    let below_touched = |leaf: u32| -> bool {
+        // node x at level k covers leaves [(x + 1 - 2^k) / 2, .. + 2^k)
+        let k = (!touched).trailing_zeros();
+        let span = 1u32 << k;
+        let lo = (touched + 1 - span) / 2;
+        lo <= leaf && leaf < lo + span
+    };
     for q in receivers {
+        let must_reject = must_reject || (code == 32 && members_now.get(&q).map(|l| below_touched(*l)).unwrap_or(false));
         let pre = before_op(w, q, g, "process_incoming_message(byzantine commit)")?;
         let keep = w.parties[q].mems[g].group.clone();
         let r = w.process(q, g, &bytes, "process_byzantine_commit")?;
